@@ -8,6 +8,7 @@ import (
 	"github.com/ipld/go-ipld-prime/datamodel"
 	nd "github.com/ipld/go-ipld-prime/internal/verifnd"
 	"github.com/ipld/go-ipld-prime/schema"
+	"github.com/ipld/go-ipld-prime/zzverif/ref/gen"
 	"github.com/ipld/go-ipld-prime/zzverif/ref/refschema"
 	"github.com/ipld/go-ipld-prime/zzverif/ref/refval"
 	"github.com/ipld/go-ipld-prime/zzverif/schemas"
@@ -15,9 +16,9 @@ import (
 )
 
 var bindTypes = []string{"Plain", "OptNull", "Tuple", "Join", "Pairs", "MapSI", "ListS", "UnionK", "UnionKinded", "UnionSP", "EnumS", "EnumI", "Outer", "Nested",
-	"MapSU", "ListU", "MapSP", "ListT", "MapSN", "ListN", "OptComp", "EnumX"}
+	"MapSU", "ListU", "MapSP", "ListT", "MapSN", "ListN", "OptComp", "OptMore", "EnumX", "OptOne", "ListOO", "MapOO"}
 var genTypes = []string{"Plain", "OptNull", "Tuple", "Join", "MapSI", "ListS", "UnionK", "UnionKinded", "UnionSP", "Outer",
-	"MapSU", "ListU", "MapSP", "ListT", "MapSN", "ListN", "OptComp"}
+	"MapSU", "ListU", "MapSP", "ListT", "MapSN", "ListN", "OptComp", "OptMore", "OptOne", "ListOO", "MapOO"}
 
 func views(engine int, name string) {
 	t := schemas.ByName(name)
@@ -46,6 +47,25 @@ func views(engine int, name string) {
 		n2 := nb2.Build()
 		nd.Assert(refval.Equal(refval.Of(n2), v), "building through the representation builder gives the same typed value")
 		nd.NoPanic("DeepEqual", func() { nd.Assert(datamodel.DeepEqual(n, n2), "both builds are deeply equal") })
+	}
+	// assigning whole nodes: the typed node to a type-level builder, its representation and a
+	// generic (basicnode) copy of the representation to representation builders
+	for route := 0; route < 3; route++ {
+		var nbx datamodel.NodeBuilder
+		var src datamodel.Node
+		switch route {
+		case 0:
+			nbx, src = proto.Type.NewBuilder(), n
+		case 1:
+			nbx, src = proto.Repr.NewBuilder(), rn
+		case 2:
+			nbx, src = proto.Repr.NewBuilder(), gen.MustBuild(want)
+		}
+		nd.NoPanic("AssignNode", func() { err = nbx.AssignNode(src) })
+		nd.Assert(err == nil, "AssignNode of a node holding an inhabitant (typed, representation, generic) is accepted")
+		if err == nil {
+			nd.Assert(refval.Equal(refval.Of(nbx.Build()), v), "AssignNode builds the same typed value")
+		}
 	}
 	// encode the representation, decode through the representation builder
 	var buf bytes.Buffer
